@@ -50,6 +50,7 @@ func sweepDeterminism(L *Loaded, allowFile string) (all []ndSource, bad []ndSour
 	}
 	sort.Strings(names)
 	seen := map[*ssa.Function]bool{}
+	seenGlobal := map[string]bool{}
 	for _, n := range names {
 		fn := L.Funcs[n]
 		if seen[fn] || strings.HasPrefix(fn.Name(), "__") || isSpecName(L, fn) {
@@ -68,6 +69,29 @@ func sweepDeterminism(L *Loaded, allowFile string) (all []ndSource, bad []ndSour
 					p := L.Fset.Position(pos)
 					s := ndSource{Func: n, Kind: kind, Pos: p, Line: lineText(p.Filename, p.Line)}
 					all = append(all, s)
+				}
+				// package-level variables that hold references (slices, maps, pointers, ...) are
+				// state shared by all worlds of the process: each use must be justified (immutable
+				// after initialisation, or not world state)
+				if fn.Name() != "init" {
+					for _, op := range ins.Operands(nil) {
+						if op == nil || *op == nil {
+							continue
+						}
+						if g, ok := (*op).(*ssa.Global); ok && g.Pkg == L.SPkg && !strings.HasPrefix(g.Name(), "init$") {
+							if pt, ok := g.Type().Underlying().(*types.Pointer); ok && hasReference(pt.Elem(), 0) {
+								// one source per variable: keyed by its declaration
+								if !seenGlobal[g.Name()] {
+									seenGlobal[g.Name()] = true
+									gp := L.Fset.Position(g.Pos())
+									all = append(all, ndSource{Func: "package ecs", Kind: "shared-state:" + g.Name(), Pos: gp, Line: lineText(gp.Filename, gp.Line)})
+								}
+								if st, isStore := ins.(*ssa.Store); isStore && st.Addr == *op {
+									add("shared-state-write:"+g.Name(), ins.Pos())
+								}
+							}
+						}
+					}
 				}
 				switch t := ins.(type) {
 				case *ssa.Range:
@@ -121,6 +145,26 @@ func sweepDeterminism(L *Loaded, allowFile string) (all []ndSource, bad []ndSour
 		}
 	}
 	return
+}
+
+// hasReference: does a value of type t hold memory that a copy shares with the original?
+func hasReference(t types.Type, depth int) bool {
+	if depth > 6 {
+		return true
+	}
+	switch u := t.Underlying().(type) {
+	case *types.Slice, *types.Map, *types.Pointer, *types.Chan, *types.Signature, *types.Interface:
+		return true
+	case *types.Struct:
+		for i := 0; i < u.NumFields(); i++ {
+			if hasReference(u.Field(i).Type(), depth+1) {
+				return true
+			}
+		}
+	case *types.Array:
+		return hasReference(u.Elem(), depth+1)
+	}
+	return false
 }
 
 func isSpecName(L *Loaded, fn *ssa.Function) bool {
